@@ -535,7 +535,7 @@ if clause == 'envelope':
     E, law = sweep.envelope(cfg)
     ok = r['err'] <= E
     print('%%s %%s via %%s options %%s family %%s n=%%d rows=%%d dr=%%g' %% (cfg['dir'], cfg['method'], cfg['via'], cfg['opts'], cfg['fam'], cfg['n'], cfg['rows'], cfg['dr']))
-    print('pixel', r['pix'], 'got', r['got'], 'true', r['want'], 'error/peak', r['err'], 'envelope', E, 'law', law)
+    print('pixel', r['pix'], 'got', r['got'], 'true', r['want'], 'error/peak', r['err'], 'envelope', E, '= 1.5*K*(dr/scale)^q with K=%%g q=%%g' %% (law['K'], law['q']))
 elif clause == 'refinement':
     fine = json.loads(%(fine)r)
     e0 = sweep.region_error(cfg, %(lo)r, %(hi)r); e1 = sweep.region_error(fine, %(lo1)r, %(hi1)r)
